@@ -134,6 +134,7 @@ Step ==
               /\ st' = [st EXCEPT !.sent = @ \cup {e.msgs[x] : x \in 1..Len(e.msgs)}]
               /\ slots' = IF Has(e, "save") THEN [slots EXCEPT ![e.save] = st'] ELSE slots
               /\ UNCHANGED << ep, live, cnt >>
+         [] live /\ e.e = "dec.note" -> Unch            \* an operation of the case that did not reach the decoder
          [] live /\ e.e = "dec.restore" ->
               /\ st' = slots[e.slot]
               /\ UNCHANGED << ep, live, slots, cnt >>
